@@ -225,8 +225,6 @@ theorem deDefault_other (r : PRow) (h : (isBeginRow r && keyIn r "default") = fa
 
 example : deDefault [(["type".toList], "begin group".toList), (["default".toList], "1 + 1".toList)] =
     some [calcMark, (["type".toList], "begin group".toList)] := by decide +kernel
-example : deDefault [(["type".toList], "begin group".toList), (["default".toList], "abc".toList)] =
-    some [(["type".toList], "begin group".toList)] := by decide +kernel
 example : deDefault [(["type".toList], "text".toList), (["default".toList], "1 + 1".toList)] =
     some [(["type".toList], "text".toList), (["default".toList], "1 + 1".toList)] := by decide +kernel
 
